@@ -211,7 +211,6 @@ pub struct DeliverInfo {
     pub existed: bool,
     pub overlapped_existing: bool,
     pub was_duplicate: bool,
-    pub gaps_before: usize,
 }
 
 impl Model {
@@ -236,7 +235,6 @@ impl Model {
             existed: existing.is_some(),
             overlapped_existing: false,
             was_duplicate: false,
-            gaps_before: existing.map(|s| s.gaps()).unwrap_or(0),
         };
         let errs = applicable_errors(existing, off8, more, bytes.len());
         if !errs.is_empty() {
